@@ -50,7 +50,7 @@ func (World) Stub(prop string) []string {
 func (World) Assumptions(prop string) []string {
 	common := []string{
 		"validator info of epoch e+1 is derived from the reference node's lists of epoch e: shard, list and index of every listed key are the previous result, every key has exactly one entry, a key is never both new and leaving, new keys never have a low rating, jailed/inactive never empties a shard's eligible entries and never drops a shard below its minimum (the latter except with knob allow_below_min, where the shuffler then refuses the input and the run ends)",
-		"per node: Prepare(e) before Action(e) before Prepare(e+1); duplicates of Prepare only before Action; restarts anywhere; a node whose state was lost because a save failed (code only logs it) and that then restarted leaves the run",
+		"per node: Prepare(e) before Action(e) before Prepare(e+1); duplicates of Prepare only before Action; for some epochs competing epoch-start candidates of the same new epoch (other PrevRandSeed, same validator info, same previous epoch): some nodes prepare candidate A, compute groups and look keys up, then prepare candidate B, other nodes only ever see B; Action only for the last candidate and only on nodes that prepared it; oracles speak about the candidate a node holds last (a node still holding an abandoned candidate is not asked about that epoch); restarts anywhere; a node whose state was lost because a save failed (code only logs it) and that then restarted leaves the run",
 		"Go map iteration order cannot be seeded: the verdict does not depend on it on the unchanged tree; a map-order dependent mutant is found statistically (ReplayAttempts=30 for C13)",
 	}
 	switch prop {
@@ -79,7 +79,7 @@ func (World) Assumptions(prop string) []string {
 }
 
 func (World) Rule(prop string) string {
-	gen := "2-4 nodes, 1-3 shards + metachain, 2-12 validators per shard, consensus sizes 1-5, 3-10 epochs of registry ops (register/unstake/jail/inactive/rating/restake), per-epoch delivery schedule (arms: faultfree / schedule = duplicates+restarts / diskfaults = +put_error,get_error), consensus samples and direct shuffler calls; "
+	gen := "2-4 nodes, 1-3 shards + metachain, 2-12 validators per shard, consensus sizes 1-5, 3-10 epochs of registry ops (register/unstake/jail/inactive/rating/restake), per-epoch delivery schedule (arms: faultfree / schedule = duplicates+restarts+competing epoch-start candidates / diskfaults = +put_error,get_error), consensus samples and direct shuffler calls; "
 	switch prop {
 	case "C12":
 		return gen + "non-trivial = at least 2 recorded UpdateNodeLists calls and at least one with a leaving request; distinct = hash of full plan"
